@@ -19,7 +19,8 @@ CHECKS["C16"] = {
 CHECKS["C06"] = {
     "level": "exploration",
     "subs": [
-        _sub("TestC06_Diff", 4000, 160000, sq=16, st=16),
+        _sub("TestC06_Diff", 4000, 160000, sq=12, st=12),
+        _sub("TestC06_NoKey", 1200, 40000, sq=4, st=4),
     ],
 }
 
